@@ -185,6 +185,20 @@ def eval_points(obs, horizon=datetime(2037, 12, 31)):
     return sorted(p for p in pts if first <= p < horizon)
 
 
+def period_span(obs):
+    """(wall before, offset before, wall after, offset after) around the first onset at which the offset changes and that
+    has no other onset within three days; None if the definition has no such onset."""
+    ons = sorted((o - ob.offset_from, ob, o) for ob in obs for o in ob.onsets_local)
+    for i, (utc_t, ob, local) in enumerate(ons):
+        if i == 0 or ob.offset_from == ob.offset_to:
+            continue
+        prev_ok = utc_t - ons[i - 1][0] > timedelta(days=3)
+        next_ok = i + 1 >= len(ons) or ons[i + 1][0] - utc_t > timedelta(days=3)
+        if prev_ok and next_ok and ons[i - 1][1].offset_to == ob.offset_from:
+            return (local - timedelta(days=2), ob.offset_from, local + timedelta(days=2), ob.offset_to)
+    return None
+
+
 def fail(cls, case, expected, observed, known=None):
     f = {"cls": cls, "case": case, "expected": expected, "observed": observed, "size": len(repr(case)),
          "unit_test": ("import sys; sys.path[:0] = ['/verif', '/repo/src']\nfrom mc.checks import c12\n"
@@ -229,6 +243,29 @@ def run_def(case):
                               known=known_conversion(provider, case, e)))
             results[provider] = None
             continue
+        # date-times that REFERENCE the TZID from inside a calendar: DTSTART / DTEND and an explicit-end PERIOD written with
+        # the same wall clocks two days before and after an onset must carry the offsets of their own observances
+        span = period_span(obs)
+        if span is not None:
+            w1, off1, w2, off2 = span
+            ctext = "\r\n".join(["BEGIN:VCALENDAR", "VERSION:2.0", "PRODID:c12"] + d.text() + [
+                "BEGIN:VEVENT", "UID:p", f"DTSTART;TZID={d.tzid}:{fmt(w1)}", f"DTEND;TZID={d.tzid}:{fmt(w2)}",
+                f"RDATE;VALUE=PERIOD;TZID={d.tzid}:{fmt(w1)}/{fmt(w2)}", "END:VEVENT", "END:VCALENDAR", ""])
+            try:
+                cal = Calendar.from_ical(ctext)
+                ev = cal.walk("VEVENT")[0]
+                per = ev["RDATE"].dts[0].dt
+                got_offs = {"DTSTART": ev["DTSTART"].dt.utcoffset(), "DTEND": ev["DTEND"].dt.utcoffset(),
+                            "PERIOD.start": per[0].utcoffset(), "PERIOD.end": per[1].utcoffset()}
+                want_offs = {"DTSTART": off1, "DTEND": off2, "PERIOD.start": off1, "PERIOD.end": off2}
+                trans += 1
+                if got_offs != want_offs and not any(f["cls"].endswith("interpretation-differs") for f in fails):
+                    wrong = sorted(k for k in want_offs if got_offs[k] != want_offs[k])
+                    fails.append(fail(f"{provider}:referencing-values-differ:{','.join(wrong)}", case, {k: str(v) for k, v in want_offs.items()},
+                                      {k: str(v) for k, v in got_offs.items()},
+                                      known=known_interpretation(provider, case_for_matchers, d, obs, pts, tz)))
+            except Exception as e:  # noqa: BLE001
+                fails.append(fail(f"{provider}:referencing-calendar-raises", case, "a calendar", f"{type(e).__name__}: {str(e)[:100]}"))
         res = []
         bad = None
         for t in pts:
